@@ -64,6 +64,8 @@ def gen_scenario(rng, want_index=None, want_verify=None):
         "verify": verify, "index": index, "pre": pre, "dest_state": rng.random() < 0.4,
         "src_local": src_local, "dest_local": rng.random() < 0.5, "vanish": vanish,
         "src_algo": "md5-dos2unix" if rng.random() < 0.2 else "md5",
+        # `obj_ids` is declared Iterable[HashInfo]: sets, lists, tuples and one-shot iterators / generators are all valid
+        "req_form": rng.choice(["set", "set", "list", "tuple", "iter", "generator"]),
     }
     return sc, uni
 
@@ -140,9 +142,11 @@ class Run:
 
         sc = self.sc
         faults = stores.Faults(self.dest, fail, on_event=self._audit, vanish=vanish)
-        req = {stores.hi(o, self.src_algo) for o in sc["req"]}
+        ids = [stores.hi(o, self.src_algo) for o in sc["req"]]
 
         def f():
+            form = sc.get("req_form", "set")
+            req = {"set": set(ids), "list": ids, "tuple": tuple(ids), "iter": iter(ids), "generator": (h for h in ids)}[form]
             with faults.active():
                 return transfer(self.src, self.dest, req, verify=sc["verify"] if verify is None else verify,
                                 dest_index=self.idx, shallow=sc["shallow"])
